@@ -22,15 +22,18 @@ Parsed == /\ Live("parsed")
 Present(stim) == { t \in { (IF "timeout_ms" \in DOMAIN stim.client THEN stim.client.timeout_ms ELSE -1),
                            (IF "endpoint_timeout_ms" \in DOMAIN stim.client THEN stim.client.endpoint_timeout_ms ELSE -1),
                            (IF "timeout_ms" \in DOMAIN stim.server THEN stim.server.timeout_ms ELSE -1) } : t >= 0 }
+SameTick(stim) == "same_tick" \in DOMAIN stim /\ stim.same_tick
 Ignore == /\ l <= Len(Rec) /\ ~dead /\ E.e \in {"cli_built", "srv_req", "srv_done", "bodies", "req_head", "resp_head", "frame"} /\ l' = l + 1
           /\ UNCHANGED <<run, dead, bad, s, stats>>
 Cli == /\ Live("cli") /\ UNCHANGED stats /\ JudgeK(<<>>, [s EXCEPT !.cli = E])
 S_timeout == <<84, 105, 109, 101, 111, 117, 116, 32, 101, 120, 112, 105, 114, 101, 100>>
 Timing == /\ Live("timing")
-          /\ LET T == Present(s.stim) L == s.stim.script.latency_ms
+          /\ LET T == IF SameTick(s.stim) THEN {} ELSE Present(s.stim) L == IF SameTick(s.stim) THEN 0 ELSE s.stim.script.latency_ms
                  out == [ok |-> s.cli.ok, code |-> IF s.cli.ok THEN 0 ELSE s.cli.st.code, elapsed |-> E.elapsed_ms] IN
              /\ JudgeK(<< <<"HarnessOK", "none" \notin DOMAIN s.cli>>,
-                          <<"C09.ShortestDeadlineEnforced", EnforceOK(T, L, out)>>,
+                          \* stim.same_tick: sub-millisecond latency and timeout (script.latency_us < timeout_us, both within one tick of the runtime's
+                          \* 1 ms timer wheel): the handler finishes before the deadline, so the call is unaffected - however the two wake-ups are ordered
+                          <<"C09.ShortestDeadlineEnforced", IF SameTick(s.stim) THEN (s.stim.script.latency_us < s.stim.min_timeout_us => out.ok) ELSE EnforceOK(T, L, out)>>,
                           <<"C09.TimeoutExpiredMessage", (~out.ok /\ T # {} /\ L >= MinOf(T)) => s.cli.st.msg = S_timeout>> >>,
                        [s EXCEPT !.timing = E.elapsed_ms])
              /\ Count((IF ~s.cli.ok THEN {"cut_off"} ELSE {"finished"}) \cup (IF T # {} /\ L = MinOf(T) THEN {"ties"} ELSE {}))
